@@ -17,7 +17,8 @@ func (i *Interpreter) ServeHTTP(w ghttp.ResponseWriter, r *ghttp.Request) {
 	i.Debugger.Message("Request Incoming =========>")
 	defer i.Debugger.Message("<========= Request finished")
 	// Prevent deadlock if simulator is a backend for itself.
-	if strings.Contains(r.Header.Get("Fastly-FF"), variable.FALCO_SERVER_HOSTNAME) {
+	// Fastly-FF may arrive as several header lines (one per node it passed), check all of them
+	if strings.Contains(strings.Join(r.Header.Values("Fastly-FF"), ","), variable.FALCO_SERVER_HOSTNAME) {
 		ghttp.Error(w, "loop detected", ghttp.StatusServiceUnavailable)
 		return
 	}
